@@ -5,9 +5,14 @@
 //	c05 c05rec -out trace.ndjson    record seeded random redactions for Redaction_trace.tla (code -> spec)
 package main
 
-import "verifharness/hx"
+import (
+	"runtime/debug"
+
+	"verifharness/hx"
+)
 
 func init() {
+	debug.SetGCPercent(400) // allocation-heavy JSON work: fewer collections
 	hx.Register("c05", "replay Redaction_gen.tla records against RedactEventJSON / PDU.Redact / signature checks", func(a *hx.Args) error {
 		return hx.ReplayAll(a, replayOne)
 	})
